@@ -24,6 +24,24 @@ CLAIMED = {
             "abstract interpretation (solver-scope typestate, decision tables) + sibling cross-check + who-may-call"),
 }
 
+CLAIMED.update({
+    "C02": ("§4 C02", "decides: Z.partition-flow, Z.layer-assert, Z.tests, Z.decision (table over v, f, k=0), Z.start, SHORTCUT.*, DISPATCH, PART.* "
+                      "on `consistency`. Assumes: partition theorem, SAT solver correctness, API tables",
+            "abstract interpretation (solver-scope typestate, decision table) + truth-table comparison"),
+    "C03": ("§4 C03", "decides for both back-ends: W.soft/hard, W.ignore, W.subset-test (evaluated on all families over {∅,{1},{2},{1,2}}), W.decision "
+                      "incl. recursion constraints, W.balance, W.start, W.query-slot, SHORTCUT.*, DISPATCH, PART.*; the enumeration is used through "
+                      "the summary established under C15. Assumes: SWinf correctness theorem, MaxSAT solver correctness",
+            "abstract interpretation (WCNF/Optimize item sets, generic-loop exit analysis) + finite-model evaluation of the subset predicate"),
+    "C04": ("§4 C04", "decides for both back-ends: LEX.soft/hard, LEX.strict-shortcuts, LEX.cardinality (evaluated over all cardinalities 0..2), "
+                      "LEX.tie-quantifier and LEX.tie-constraints (two abstract witnesses per side, Rec uninterpreted), LEX.start, SHORTCUT.*, "
+                      "DISPATCH, PART.*. Assumes: as C03",
+            "abstract interpretation + two-witness instantiation of the tie loops + decision-table comparison"),
+    "C15": ("§4 C15", "decides: CNF.roles, CNF.literals, CNF.constants (incl. handling, on witness goals), CNF.pool, MCS.violated, MCS.block, "
+                      "MCS.minimal (three abstract sets, ⊆ uninterpreted), MCS.loop, CACHE.readonly for clauses. Assumes: z3's tseitin-cnf tactic "
+                      "preserves satisfiability per assignment of the original atoms; RC2 returns optimal models",
+            "abstract interpretation of the encoder and of the enumeration loop + witness instantiation"),
+})
+
 NA = {
     "C08": "inclusion between operators is a relation between answers of different operators on the same input that follows from theorems "
            "about their definitions; it has no code-shaped clause of its own - its anchored mechanism (same partition, same "
